@@ -46,6 +46,12 @@ pub fn poison_compile() {
     let _ = catch(|| compile(&x, &RunOptions::default()).map(|c| c.scheme("/poison")));
 }
 
+/// true in an environment run whose clock is moved forward by every reading (see util::environments)
+fn clock_moves_per_reading() -> bool {
+    static CELL: std::sync::OnceLock<bool> = std::sync::OnceLock::new();
+    *CELL.get_or_init(|| crate::util::current_environment().map(|e| e["clock"]["step_ns"].as_u64().unwrap_or(0) > 0).unwrap_or(false))
+}
+
 pub fn compile_tree(e: &E, threads: Option<u32>, device: &str) -> CompileOutcome {
     if crate::util::stable_hash(&(e, threads)) % 8 == 0 {
         poison_compile();
@@ -55,7 +61,12 @@ pub fn compile_tree(e: &E, threads: Option<u32>, device: &str) -> CompileOutcome
     let x = if crate::util::stable_hash(&(e, 0x5eedu16)) % 2 == 0 && has_repeated_subtree(e) { to_ast_shared(e) } else { to_ast(e) };
     let mut opts = RunOptions::default();
     opts.threads = threads;
-    for _ in 0..50 {
+    // In an environment whose (moved) clock advances with every reading of any thread, the
+    // readings of the other worker threads would push t0 and t1 apart: the bracketed compilation
+    // is then done by one thread at a time.
+    static CLOCK_TURN: std::sync::Mutex<()> = std::sync::Mutex::new(());
+    let _turn = if clock_moves_per_reading() { Some(CLOCK_TURN.lock().unwrap_or_else(|e| e.into_inner())) } else { None };
+    for _ in 0..200 {
         let t0 = now_secs();
         let r = catch(|| compile(&x, &opts).map(|c| (c.scheme(device), c.io_map())));
         let t1 = now_secs();
